@@ -16,7 +16,9 @@ RULE = ("same-kind pairs and triples from pools of ints+decimals (around 2^53/2^
         "proper prefixes), booleans, dates, lists of these (incl. proper prefixes); all pairs and "
         "all triples of each pool at the API; compare/<=/>/>=/min/max through programs; sorted() on "
         "lists <= 7 with duplicate keys, with and without key/cmp (stability witnessed by [key, tag] "
-        "pairs and by 1 vs 1.0); set and map-key enumeration; a case is non-trivial when the two "
+        "pairs and by 1 vs 1.0, also with key/cmp functions that sort something themselves); set and map-key "
+        "enumeration, also after the set/map was enumerated and then edited in place (or a string/list member of a set "
+        "changed through an alias); a case is non-trivial when the two "
         "values are not identical; distinct = distinct abstract tuples")
 ASSUMPTIONS = [
     "mixed-kind comparison (text fallback) is deliberately not asserted",
@@ -277,8 +279,95 @@ def run_sorting(spec, ctx):
         items = [r.choice(small) for _ in range(n)]
         if any(not rv.same_order_kind(x, y) for x in items for y in items):
             continue
-        form = r.randrange(5)
+        form = r.randrange(8)
         ctx.case(("sort", form, tuple(items)), nontrivial=len(items) > 1)
+        if form in (5, 6):
+            # sets / maps that were enumerated, then edited in place (members added and removed without a read in
+            # between, often back to the same size; for strings and lists also a member changed through an alias),
+            # then enumerated again
+            from cklgen import history
+            uniq = rv.dedupe(items)
+            stmts = []
+            expect_items = list(uniq)
+            # (only for sets: a map whose key was changed in place cannot find the key's entry any more, on any
+            #  hash-based implementation; enumeration of a set needs no lookup)
+            via_alias = form == 5 and kind in ("str", "list") and len(uniq) >= 1 and r.random() < 0.5
+            if via_alias:
+                names = ["e%d" % i for i in range(len(uniq))]
+                stmts += ["def %s = %s" % (nm, gv.to_source(x, r)) for nm, x in zip(names, uniq)]
+                if form == 5:
+                    stmts.append("def h = << %s >>" % ", ".join(names))
+                else:
+                    stmts.append("def h = <<< %s >>>" % ", ".join("identity(%s) => %d" % (nm, i) for i, nm in enumerate(names)))
+                stmts += ["do string(h) catch all NULL end", "do [x for x in h] catch all NULL end", "do list(h) catch all NULL end"]
+                j = r.randrange(len(uniq))
+                old = uniq[j]
+                if kind == "str":
+                    new = ("str", r.choice(["~", "", "0", "zz", "A"]) + old[1][1:]) if old[1] else None
+                    edit = "%s[0] = %s" % (names[j], gv.str_literal(new[1][:len(new[1]) - len(old[1]) + 1], r)) if new else None
+                else:
+                    extra = r.choice([("int", 0), ("int", 10**6), ("str", "a")] if not old[1] else [old[1][0]])
+                    new = ("list", old[1] + (extra,))
+                    edit = "append(%s, %s)" % (names[j], gv.to_source(extra, r))
+                    if any(not rv.same_order_kind(new, y) for y in uniq):
+                        new = None
+                if new is None or any(rv.ref_eq(new, y) for i, y in enumerate(uniq) if i != j):
+                    continue
+                stmts.append(edit)
+                expect_items[j] = new
+                ctx.count("member_changed_through_alias")
+            else:
+                av = ("set", tuple(uniq)) if form == 5 else ("map", tuple((x, ("int", i)) for i, x in enumerate(uniq)))
+                st, tg = history.build(r, av, "h", extra_primers=("[x for x in h]", "list(h)"))
+                stmts += st
+                for x in tg:
+                    ctx.count("edit:" + x)
+            pre = "; ".join(stmts) + "; "
+            forms = ("[x for x in h]", "list(h)", "def acc = []; for x in h do acc !> append(x) end; acc", "[...h]") if form == 5 else \
+                    ("[k for k in keys h]", "def acc = []; for k in keys h do acc !> append(k) end; acc", "[e[0] for e in entries h]", "list(set(h))")
+            for f in forms:
+                src = pre + f
+                o = ev(src)
+                ctx.count("enumerations_after_edits")
+                if o.kind != "value":
+                    ctx.violation("C07:enum-after-edits-error:" + kind, "%s -> %s" % (src, core.safe_str(o.exc)), {"src": src})
+                    continue
+                got = list(gv.abstract(o.value)[1])
+                bad = None
+                if len(got) != len(expect_items) or any(not rv.member(x, got) for x in expect_items):
+                    bad = "expected exactly the %d members %s" % (len(expect_items), [gv.to_source(x) for x in expect_items])
+                for p_, q_ in zip(got, got[1:]):
+                    if not rv.ref_lt(p_, q_):
+                        bad = "not ascending: %r then %r" % (p_, q_)
+                if bad:
+                    ctx.violation("C07:%s-enumeration-after-edits:%s%s" % ("set" if form == 5 else "map-key", kind, ":alias" if via_alias else ""),
+                                  "%s -> %s: %s" % (src, core.safe_str(o.value), bad), {"src": src})
+            continue
+        if form == 7:
+            # key / cmp functions that sort something themselves while the outer sort is running
+            pairs = [("list", (x, ("int", i))) for i, x in enumerate(items)]
+            lit = "[%s]" % ", ".join(gv.to_source(p_, r) for p_ in pairs)
+            inner = "[%s]" % ", ".join(str(r.randint(0, 9)) for _ in range(r.choice([0, 1, 2, 3, 5, 8, 13])))
+            which = r.randrange(4)
+            if which == 0:
+                src = "sorted(%s, key = fn(p) do sorted(%s, key = fn(x) 0 - x); p[0] end)" % (lit, inner)
+            elif which == 1:
+                src = "sorted(%s, cmp = fn(a, b) do sorted(%s, cmp = fn(x, y) compare(y, x)); compare(a[0], b[0]) end)" % (lit, inner)
+            elif which == 2:
+                src = "sorted(%s, key = fn(p) sorted([p[0], p[0]])[0])" % lit
+            else:
+                src = "sorted(%s, cmp = fn(a, b) compare(sorted([a[0]]), sorted([b[0]])))" % lit
+            o = ev(src)
+            ctx.count("sorted_calls")
+            ctx.count("reentrant_sorted_calls")
+            if o.kind != "value":
+                ctx.violation("C07:sorted-error:reentrant:" + kind, "%s -> %s" % (src, core.safe_str(o.exc)), {"src": src})
+                continue
+            got = list(gv.abstract(o.value)[1])
+            bad = is_sorted_stable(pairs, got, lambda p_: p_[1][0])
+            if bad:
+                ctx.violation("C07:sorted:reentrant:%s" % kind, "%s -> %s: %s" % (src, core.safe_str(o.value), bad), {"src": src})
+            continue
         if form == 0:
             src = "sorted([%s])" % ", ".join(gv.to_source(x, r) for x in items)
             o = ev(src)
@@ -368,7 +457,7 @@ def finalize(merged, tier):
     c = merged["counters"]
     reasons = []
     for k in ("lt_checks", "api_lt_pairs", "api_lt_triples", "program_evaluations", "sorted_calls",
-              "set_enumerations", "map_key_enumerations"):
+              "set_enumerations", "map_key_enumerations", "enumerations_after_edits", "reentrant_sorted_calls"):
         if c.get(k, 0) == 0:
             reasons.append("monitor counter %s is zero" % k)
     if merged["counters"].get("suite_tests", 0) == 0 or merged["counters"].get("suite_report_missing", 0):
